@@ -12,7 +12,7 @@ Not decided: equality of the embedded analysis results after reload (value level
 from engine.cfgq import call_sites, paths_avoiding
 from engine.facts import AnalysisBroken
 
-UNITS = ['CCL']
+UNITS = ['CCL', 'RSlang2']
 
 # keys that are written but deliberately not read back: (type, key path) -> reason
 DERIVED = {
@@ -316,3 +316,7 @@ def check(db, rep):
             r4.violation('TextInterpretation', '%s:%d' % (w.file, w.line), 'interpretant ids (map keys) are not written; the reader renumbers them with PushBack (1,2,3,...) while the stored base-set data keeps the old ids')
         else:
             r4.ok('TextInterpretation', 'keys preserved', '%s:%d' % (w.file, w.line))
+
+    # structured values are stored in the compact encoding: writer/reader agreement of that encoding is part of losslessness (shared with C16)
+    from rules import C16
+    C16.check(db, rep, rule_prefix='c16-', explain=False)
